@@ -130,7 +130,12 @@ func verifC12RData() {
 	}
 	rd := vBytes(vInt(0, k))
 	hdr := []byte{0, 0, 0x81, 0x80, 0, 0, 0, 1, 0, 0, 0, 0}
-	rr := []byte{0, byte(typ >> 8), byte(typ), 0, 1, vByte(), vByte(), vByte(), vByte(), byte(len(rd) >> 8), byte(len(rd))}
+	// the class is symbolic: the Go type of the data is implied by the record type alone
+	cls := []byte{0, 1}
+	if typ == 1 || typ == 28 || typ == 999 || typ == 37 || typ == 43 || typ == 48 {
+		cls = vBytes(2) // (kept concrete for types whose RDATA holds names: pointers into symbolic class bytes multiply paths)
+	}
+	rr := []byte{0, byte(typ >> 8), byte(typ), cls[0], cls[1], vByte(), vByte(), vByte(), vByte(), byte(len(rd) >> 8), byte(len(rd))}
 	b := append(append(hdr, rr...), rd...)
 	m, err := DecodeMessage(b)
 	if err != nil {
